@@ -70,28 +70,53 @@ package objectz
 
 //@ spec cmp3(n1 Bool, n2 Bool, lt Bool, gt Bool) Int = (ite n1 (ite n2 0 (- 1)) (ite n2 1 (ite lt (- 1) (ite gt 1 0))))
 //@ spec oStr(sym Int, ent Int) *string
+// the symbol function is supplied by the user of the store (assumed deterministic and read-only); the symbol answers
+// with exactly what it returns - a zero value is a value, not a null
+//@ funcfield ObjectStringSymbol.f(entity)
+//@   pure
+//@   ensures result == oStr(self, entity)
 //@ func (*ObjectStringSymbol).EvalString
-//@   trusted the symbol function f is supplied by the user of the store
+//@   props C19
 //@   pure
 //@   ensures result == oStr(self, entity)
 //@ spec oInt(sym Int, ent Int) *int64
+// the symbol function is supplied by the user of the store (assumed deterministic and read-only); the symbol answers
+// with exactly what it returns - a zero value is a value, not a null
+//@ funcfield ObjectInt64Symbol.f(entity)
+//@   pure
+//@   ensures result == oInt(self, entity)
 //@ func (*ObjectInt64Symbol).EvalInt64
-//@   trusted the symbol function f is supplied by the user of the store
+//@   props C19
 //@   pure
 //@   ensures result == oInt(self, entity)
 //@ spec oFlt(sym Int, ent Int) *float64
+// the symbol function is supplied by the user of the store (assumed deterministic and read-only); the symbol answers
+// with exactly what it returns - a zero value is a value, not a null
+//@ funcfield ObjectFloat64Symbol.f(entity)
+//@   pure
+//@   ensures result == oFlt(self, entity)
 //@ func (*ObjectFloat64Symbol).EvalFloat64
-//@   trusted the symbol function f is supplied by the user of the store
+//@   props C19
 //@   pure
 //@   ensures result == oFlt(self, entity)
 //@ spec oBool(sym Int, ent Int) *bool
+// the symbol function is supplied by the user of the store (assumed deterministic and read-only); the symbol answers
+// with exactly what it returns - a zero value is a value, not a null
+//@ funcfield ObjectBoolSymbol.f(entity)
+//@   pure
+//@   ensures result == oBool(self, entity)
 //@ func (*ObjectBoolSymbol).EvalBool
-//@   trusted the symbol function f is supplied by the user of the store
+//@   props C19
 //@   pure
 //@   ensures result == oBool(self, entity)
 //@ spec oTime(sym Int, ent Int) *time.Time
+// the symbol function is supplied by the user of the store (assumed deterministic and read-only); the symbol answers
+// with exactly what it returns - a zero value is a value, not a null
+//@ funcfield ObjectDatetimeSymbol.f(entity)
+//@   pure
+//@   ensures result == oTime(self, entity)
 //@ func (*ObjectDatetimeSymbol).EvalDatetime
-//@   trusted the symbol function f is supplied by the user of the store
+//@   props C19
 //@   pure
 //@   ensures result == oTime(self, entity)
 //@ func (*objectStringSymbolComparator).compare
@@ -174,3 +199,13 @@ package objectz
 //@   ensures[skip] old((*scanner).offset) < (*scanner).targetOffset ==> (*scanner).offset == old((*scanner).offset) + 1 && *fv(result) == old(*fv(result))
 //@   ensures[take] old((*scanner).offset) >= (*scanner).targetOffset ==> (*scanner).offset == old((*scanner).offset) && len(*fv(result)) == old(len(*fv(result))) + 1 && (*fv(result))[old(len(*fv(result)))] == as(row, *memEntityComparable).entity
 //@   ensures[all] result == false
+
+// every query of the object store is answered by the sorting scan (which orders by id when no sort is given): there
+// is no second path with an order of its own
+//@ func (*ObjectStore).QueryEntitiesC
+//@   props C19
+//@   nosafety
+//@   requires query != nil
+//@   modifies *
+//@   callpre[the-query-goes-to-the-sorting-scan-as-given] Scan@1: arg0 == self && arg1 == query
+//@   lensures[always-through-the-sorting-scan] called(Scan, 1) && result0 == ret(Scan, 1, 0) && result1 == ret(Scan, 1, 1) && result2 == ret(Scan, 1, 2)
